@@ -158,9 +158,11 @@ package scipipe
 //@   noreturn
 //@ func Check(err)
 //@   props C09
+//@   deterministic by-contract returns only if err == nil, otherwise the program exits
 //@   ensures returns-only-if-nil: err == nil
 //@ func CheckWithMsg(err, errMsg)
 //@   props C09
+//@   deterministic by-contract returns only if err == nil, otherwise the program exits
 //@   ensures returns-only-if-nil: err == nil
 //@ func errWrap(err, msg) (res)
 //@   props C09
